@@ -15,7 +15,15 @@ ABTD_XSTREAM_LOCAL ABTI_local *lp_ABTI_local;
 static ABTI_global G;
 static ABTI_pool P;
 static int pushes; static ABT_unit pushed_unit; static ABT_pool_context pushed_ctx;
-static void rec_push(ABT_pool pool, ABT_unit unit, ABT_pool_context c) { pushes++; pushed_unit = unit; pushed_ctx = c; __CPROVER_assert(pool == (ABT_pool)&P, "pushed to the requested pool"); }
+/* the push PUBLISHES the unit: another stream may pop and run it at once.  In the "ran at push" case (solver's choice) the unit has
+ * already started (RUNNING), created its key table and received a request when the creator continues: the creator must not write
+ * to the descriptor any more (a late store would wipe what the running unit did). */
+static int ran_at_push; static char KT_SENTINEL[8];
+static void rec_push(ABT_pool pool, ABT_unit unit, ABT_pool_context c)
+{
+    pushes++; pushed_unit = unit; pushed_ctx = c; __CPROVER_assert(pool == (ABT_pool)&P, "pushed to the requested pool");
+    if (ran_at_push && ABTI_unit_is_builtin(unit)) { ABTI_thread *t = ABTI_unit_get_thread_from_builtin_unit(unit); __CPROVER_assert(t->state.val == ABT_THREAD_STATE_READY && t->request.val == 0 && t->p_keytable.val == NULL, "a unit is completely initialised when it is published"); t->state.val = ABT_THREAD_STATE_RUNNING; t->p_keytable.val = KT_SENTINEL; t->request.val = ABTI_THREAD_REQ_CANCEL; }
+}
 int mprotect(void *a, size_t l, int p) { return 0; }
 static void fn(void *a) {}
 static char ARGOBJ;
@@ -27,6 +35,7 @@ int main(void)
     gp_ABTI_global = &G; G.thread_stacksize = VR_STK; G.stack_guard_kind = ABTI_STACK_GUARD_NONE; G.sys_page_size = 4096; G.key_table_size = 4;
     P.is_builtin = ABT_TRUE; P.access = ABT_POOL_ACCESS_MPMC; P.required_def.p_push = rec_push;
     int named = nondet_bool(); ABT_thread h = (ABT_thread)&G;
+    ran_at_push = nondet_bool();
     int r;
 #if KIND == 0
     r = ABT_thread_create((ABT_pool)&P, fn, &ARGOBJ, ABT_THREAD_ATTR_NULL, named ? &h : NULL);
@@ -38,7 +47,8 @@ int main(void)
     VR_ASSERT(ABTI_unit_is_builtin(pushed_unit), "built-in pools use the tagged built-in unit");
     ABTI_thread *t = ABTI_unit_get_thread_from_builtin_unit(pushed_unit);
     VR_ASSERT(t->f_thread == fn && t->p_arg == (void *)&ARGOBJ, "the queued unit carries exactly the function and argument it was given");
-    VR_ASSERT(t->state.val == ABT_THREAD_STATE_READY && t->request.val == 0 && t->p_pool == &P && t->unit == pushed_unit, "the queued unit is READY, without requests, associated with the pool");
+    if (!ran_at_push) VR_ASSERT(t->state.val == ABT_THREAD_STATE_READY && t->request.val == 0 && t->p_pool == &P && t->unit == pushed_unit, "the queued unit is READY, without requests, associated with the pool");
+    else { VR_ASSERT(t->state.val == ABT_THREAD_STATE_RUNNING && t->p_keytable.val == (void *)KT_SENTINEL && t->request.val == ABTI_THREAD_REQ_CANCEL, "nothing is written to the descriptor after the unit was published (it may already run on another stream)"); VR_WITNESS("the unit ran on another stream before the creating call returned"); }
     VR_ASSERT(((t->type & ABTI_THREAD_TYPE_NAMED) != 0) == (named != 0), "named iff a handle was requested (unnamed units free themselves)");
     VR_ASSERT(((t->type & ABTI_THREAD_TYPE_YIELDABLE) != 0) == (KIND == 0), "ULTs are yieldable, tasklets are not");
     if (named) VR_ASSERT(h == (ABT_thread)t, "the returned handle is the queued unit"); else VR_ASSERT(h == (ABT_thread)&G, "no handle written for an unnamed unit");
